@@ -37,6 +37,13 @@ for t in ("u8", "u32"):
 E.append(("owned_elements_dropped_once", "owned slice of elements with drop glue: every element dropped exactly once whether dropped as DiplomatOwnedSlice or converted back to Box<[T]>", [O_FROM, O_DROP, O_INTO], None, ["C03"], "bounded", bnd_loop))
 E.append(("utf8_str_view_roundtrip", "&str -> DiplomatUtf8StrSlice -> &str same pointer/len; Deref agrees; (NULL,0) -> \"\"", [S_FROM, S_INTO, S_DEREF], None, ["C16"], "bounded", bnd))
 E.append(("owned_utf8_str_roundtrip", "Box<str> -> DiplomatOwnedUTF8StrSlice -> Box<str> same address/len/contents, freed once; (NULL,0) -> empty Box<str>", [OS_FROM, OS_INTO, OS_DEREF], None, ["C16", "C03"], "bounded", bnd_loop))
+anyb = "all lengths with len*size_of::<T>() <= 2^40 bytes (symbolic-size zeroed allocation in CBMC's allocator model; conversions are loop-free and read no element)"
+for t in ("u8", "u16", "u64"):
+    E.append((f"slice_roundtrip_anylen_{t}", f"&[{t}] <-> DiplomatSlice for every length: same pointer/len, Deref agrees, element i identical", [B_FROM, B_INTO, B_DEREF], 2, ["C16"], "complete", anyb))
+for t in ("u8", "u32"):
+    E.append((f"slice_mut_roundtrip_anylen_{t}", f"&mut [{t}] <-> DiplomatSliceMut for every length: same pointer/len, Deref/DerefMut agree, a write lands in the original storage", [M_FROM, M_INTO, M_DEREF, M_DEREFMUT], 2, ["C16"], "complete", anyb))
+for t in ("u8", "u16"):
+    E.append((f"owned_roundtrip_anylen_{t}", f"Box<[{t}]> <-> DiplomatOwnedSlice for every length: same address/len; dropped or converted back, freed exactly once", [O_FROM, O_INTO, O_DROP, O_DEREF, O_DEREFMUT], 2, ["C16", "C03"], "complete", anyb))
 E.append(("slice_layout", "DiplomatSlice/SliceMut/OwnedSlice/Utf8StrSlice are {ptr,len} in that order, two words", [], None, ["C01"], "complete", "none"))
 
 define(globals(), "slice_views", "runtime", F, "verif_slices", "slice_views.rs",
